@@ -38,7 +38,9 @@ RULE = (
     "under specification/std_extensions instantiated with matching and mismatching argument lists; plus type "
     "arguments, parameters, polymorphic signatures and mutated documents for the decoder. Non-trivial = the type "
     "has at least one constituent (not a leaf) or the constructor/decoder outcome is an error class; distinct by "
-    "full spec."
+    "full spec. A complete small scope of from-parameters bounds is enumerated: every index list of length <= 2 "
+    "(thorough: <= 3) over positions -3..2 (thorough: -4..3) x every argument list of length <= 2 (thorough: <= 3) "
+    "over {linear type, copyable type, non-type argument}."
 )
 TRUSTED = [
     "pydantic: model_dump_json / model_validate of the serialisation models (structural validation as configured)",
@@ -270,6 +272,9 @@ def gen_type(rng, depth):
             return ["@option", [gen_type(rng, depth - 1) for _ in range(rng.randint(0, 3))]]
         return ["@either", [gen_type(rng, depth - 1) for _ in range(rng.randint(0, 2))], [gen_type(rng, depth - 1) for _ in range(rng.randint(0, 2))]]
     t = bridge.gen_type(rng, depth)
+    for _ in range(2):  # fewer bare leaves where nesting was asked for
+        if depth >= 2 and not (isinstance(t, list) and t[0] in ("@sum", "@fn", "@ext", "@opaque") and spec_size(t) > 6):
+            t = bridge.gen_type(rng, depth)
     if isinstance(t, list) and t[0] in ("@sum", "@fn") and depth > 1 and rng.random() < 0.3:
         # graft a sugar sum somewhere in the first row
         rows = t[1] if t[0] == "@fn" else (t[1][0] if t[1] else None)
@@ -504,11 +509,30 @@ def gen_case_dec(rng):
     return {"k": "dec", "what": what, "doc": doc}
 
 
+def small_scope(tier):
+    """Complete small scope for from-parameters bounds: every index list up to a length over a range of
+    positions (negative, repeated, out of range) x every argument list over {linear type, copyable type,
+    non-type argument} up to a length."""
+    import itertools
+
+    if tier == "thorough":
+        rng_ix, max_ix, max_args = range(-4, 4), 3, 3
+    else:
+        rng_ix, max_ix, max_args = range(-3, 3), 2, 2
+    atoms = [["@ty", "@qubit"], ["@ty", "@usize"], ["@nat", 1]]
+    for na in range(max_args + 1):
+        for args in itertools.product(atoms, repeat=na):
+            for ni in range(max_ix + 1):
+                for ix in itertools.product(rng_ix, repeat=ni):
+                    d = ["@def", "e", "T", "", [["@ptype", "@A"] if a[0] == "@ty" else ["@pnat", "@none"] for a in args], ["@from", *ix]]
+                    yield {"k": "type", "t": ["@ext", d, [list(a) for a in args]]}
+
+
 def cases(rng, tier):
     if tier == "quick":
-        n_type, n_std, n_def, n_misc, n_dec = 9000, 1800, 600, 500, 1500
+        n_type, n_std, n_def, n_misc, n_dec = 20000, 3000, 800, 900, 2500
     elif tier == "thorough":
-        n_type, n_std, n_def, n_misc, n_dec = 330000, 50000, 0, 12000, 40000
+        n_type, n_std, n_def, n_misc, n_dec = 500000, 80000, 0, 15000, 50000
         for which in spec_defs():  # every definition of every file, many argument lists each
             for _ in range(2500):
                 yield gen_case_stddef(rng, which)
@@ -516,6 +540,9 @@ def cases(rng, tier):
         n_type, n_std, n_def, n_misc, n_dec = 60000, 12000, 4000, 0, 0
     for which in spec_defs():
         yield gen_case_stddef(rng, which)
+    yield from small_scope(tier)
+    for i in range(n_type // 40):  # the general streams (shared with C05) on the same kind of input
+        yield {"k": "gen", "stream": ("tys.bound", "tys.enc", "tys.roundtrip")[i % 3], "t": gen_case_type(rng)}
     for _ in range(n_type):
         yield {"k": "type", "t": gen_case_type(rng)}
     for _ in range(n_std):
@@ -569,6 +596,8 @@ def payload(spec):
     k = spec["k"]
     if k == "type":
         return "c07.type", spec_sexp(desugar(spec["t"]))
+    if k == "gen":
+        return spec["stream"], spec_sexp(desugar(spec["t"]))
     if k == "poly":
         return "c07.poly", spec_sexp(desugar(spec["t"]))
     if k == "arg":
@@ -677,6 +706,9 @@ def run_impl(spec) -> str:
     try:
         if k == "type":
             return "\t".join(obs_type(build_type(spec["t"])))
+        if k == "gen":
+            parts = obs_type(build_type(spec["t"]))
+            return {"tys.bound": parts[0], "tys.enc": parts[1], "tys.roundtrip": "\t".join(parts[1:])}[spec["stream"]]
         if k == "stddef":
             td = _loaded_def(spec["file"], spec["name"])
             return "\t".join(obs_type(td.instantiate([build_arg(a) for a in spec["args"]])))
@@ -883,7 +915,7 @@ def oracle(spec):
     fails: list[Failure] = []
     k = spec["k"]
     try:
-        if k in ("type", "poly"):
+        if k in ("type", "poly", "gen"):
             subs: list = []
             _subtypes(spec["t"], subs)
             seen = set()
@@ -895,7 +927,7 @@ def oracle(spec):
                 _expect(_site(s), s, build_type(s), fails)
                 if fails:
                     break
-            if not fails and k == "type":
+            if not fails and k in ("type", "gen"):
                 # the bound survives the codec (what a reader of the document sees)
                 t = build_type(spec["t"])
                 try:
@@ -904,9 +936,14 @@ def oracle(spec):
                 except Exception:  # noqa: BLE001
                     js = None
                 if js is not None:
-                    obj, _ = _rt_type(js)
-                    if (obj.type_bound() == TypeBound.Copyable) != want:
-                        fails.append(Failure("Opaque.type_bound", "decoded-bound-differs", ""))
+                    try:
+                        obj, _ = _rt_type(js)
+                        got = obj.type_bound()
+                    except Exception as e:  # noqa: BLE001
+                        fails.append(Failure("Type.deserialize", "own-encoding-rejected", type(e).__name__))
+                    else:
+                        if (got == TypeBound.Copyable) != want:
+                            fails.append(Failure("Opaque.type_bound", "decoded-bound-differs", ""))
         elif k == "stddef":
             td = _loaded_def(spec["file"], spec["name"])
             s = ["@ext", bridge.typedef_to_spec(td), spec["args"]]
@@ -917,10 +954,13 @@ def oracle(spec):
                 elem_copyable = all_copyable(spec["t"])
             except NoClaim:
                 return fails
+            ctor = {"array": "Array.__init__", "list": "List.__init__", "static": "StaticArray.__init__"}[c]
             try:
                 a = _mk_std(spec)
             except ValueError:
                 a = None
+            except Exception as e:  # noqa: BLE001  (every named position exists: nothing may raise)
+                return [Failure(ctor, "constructor-raises", type(e).__name__)]
             if c == "static":
                 # containers that require copyable elements reject linear ones
                 if a is not None and not elem_copyable:
@@ -929,11 +969,17 @@ def oracle(spec):
                     fails.append(Failure("StaticArray.__init__", "rejects-copyable-element", ""))
             if a is not None:
                 site = {"array": "Array.type_bound", "list": "List.type_bound", "static": "StaticArray.type_bound"}[c]
-                got = a.type_bound()
+                try:
+                    got = a.type_bound()
+                except Exception as e:  # noqa: BLE001
+                    return [Failure(site, "bound-raises", type(e).__name__)]
                 if (got == TypeBound.Copyable) != elem_copyable:
                     fails.append(Failure(site, "container-bound-ignores-element", f"type_bound()={got} element copyable={elem_copyable}"))
-                ser = a._to_serial()
-                if ser.bound != got:
+                try:
+                    ser = a._to_serial()
+                except Exception:  # noqa: BLE001  (an unserialisable element type: nothing is written)
+                    ser = None
+                if ser is not None and ser.bound != got:
                     fails.append(Failure("ExtType._to_opaque", "serialised-bound-differs", f"serialised {ser.bound}, computed {got}"))
     except NoClaim:
         pass
@@ -945,7 +991,7 @@ def oracle(spec):
 
 def nontrivial(spec, obs):
     k = spec["k"]
-    if k in ("type", "poly"):
+    if k in ("type", "poly", "gen"):
         return isinstance(spec["t"], list) and spec_size(spec["t"]) > 4
     if k == "dec":
         return True
@@ -956,7 +1002,7 @@ def stats(spec, obs, counters):
     k = spec["k"]
     counters[f"kind.{k}"] += 1
     first = obs.split("\t", 1)[0]
-    if k in ("type", "stddef", "poly"):
+    if k in ("type", "stddef", "poly", "gen"):
         counters[f"bound.{first if len(first) < 16 else 'other'}"] += 1
         t = spec.get("t")
         if isinstance(t, list):
@@ -1002,6 +1048,16 @@ def _shrink_cands(s):
     elif k in ("@tuple", "@option"):
         for r in list(without(s[1])) + list(replaced(s[1])):
             yield [k, r]
+    elif k == "@fn":
+        for r in list(without(s[1])) + list(replaced(s[1])):
+            yield [k, r, s[2], s[3]]
+        for r in list(without(s[2])) + list(replaced(s[2])):
+            yield [k, s[1], r, s[3]]
+        for r in without(s[3]):
+            yield [k, s[1], s[2], r]
+    elif k == "@opaque":
+        for r in without(s[3]):
+            yield [k, s[1], s[2], r, s[4]]
     elif k == "@ext":
         args = s[2]
         for i, a in enumerate(args):
@@ -1021,7 +1077,15 @@ def _shrink_cands(s):
 
 def shrink(spec, pred):
     k = spec["k"]
-    field = {"type": "t", "poly": "t", "std": "t"}.get(k)
+    if k == "stddef":
+        try:
+            cand = {"k": "type", "t": ["@ext", bridge.typedef_to_spec(_loaded_def(spec["file"], spec["name"])), spec["args"]]}
+            if pred(cand):
+                return shrink(cand, pred)
+        except Exception:  # noqa: BLE001
+            pass
+        return spec
+    field = {"type": "t", "poly": "t", "std": "t", "gen": "t"}.get(k)
     if field is None:
         return spec
     cur = spec
